@@ -58,6 +58,8 @@ func init() {
 			"(R7) close frames are written under the same mutex as data frames. " +
 			"It does not decide acceptance of whole output traces by the protocol automata (interleavings of engine events with client messages).",
 		Mutants: []Mutant{
+			{Name: "read time-out flag not reset when the timer is stopped (seeded change C19-12)", File: "execution/subscription/handler.go", Rule: "C19-R5", Key: "timeout-state-pair:readTimeOutCancel",
+				Old: "\t\t\t\tu.readTimeOutCancel()\n\t\t\t\tu.isReadTimeOutTimerRunning = false\n", New: "\t\t\t\tu.readTimeOutCancel()\n"},
 			{Name: "subscribe no longer requires connection_init", File: c19TwGo, Rule: "C19-R1", Key: "start-requires-init",
 				Old: "\tif !p.connectionInitialized {\n\t\tp.closeConnectionWithReason(\n\t\t\tNewCloseReason(4401, \"Unauthorized\"),\n\t\t)\n\t\treturn nil\n\t}\n\n\tsubscribePayload, err", New: "\tsubscribePayload, err"},
 			{Name: "subscribe before init closes with 4400 instead of 4401", File: c19TwGo, Rule: "C19-R1", Key: "subscribe-before-init-closes-4401",
@@ -388,6 +390,7 @@ func c19LockAnalysis(p *fw.Prog) *fw.LockAnalysis {
 }
 
 func runC19(r *fw.Run) {
+	defer c19ReadTimeoutStatePair(r)
 	p := r.Prog
 	ws, sub := p.Pkg("websocket"), p.Pkg("subscription")
 	if ws == nil || sub == nil {
@@ -1829,4 +1832,66 @@ func c19R6(r *fw.Run) {
 		r.Check(ok, R, fi.Name()+"/data-then-complete", c19Pos(p, bad, fi), "the OnNonSubscriptionExecutionResult arm of "+pr.name+" writes exactly one "+pr.data+" and then exactly one "+pr.complete,
 			why+": the result of a query over the socket is not 'data followed by exactly one terminal message'")
 	}
+}
+
+// c19ReadTimeoutStatePair (part of R5, added after a seeded change dropped one half of the pair): the read-error time-out
+// of a connection is one piece of state kept in two fields — isReadTimeOutTimerRunning and readTimeOutCancel. Every block
+// that assigns one of them assigns the other (started: true + cancel function; stopped: false + nil). A flag that stays
+// true after the timer was stopped means the time-out can never start again: a connection whose reads keep failing is
+// polled for ever and its subscriptions are never terminated.
+func c19ReadTimeoutStatePair(r *fw.Run) {
+	p := r.Prog
+	pk := p.Pkg("subscription")
+	if pk == nil {
+		r.Error("C19-R5: package subscription not loaded")
+		return
+	}
+	info := pk.TypesInfo
+	pair := [2]string{"isReadTimeOutTimerRunning", "readTimeOutCancel"}
+	n := 0
+	for _, fi := range p.Funcs("subscription") {
+		if fi.Decl.Recv == nil || !strings.HasPrefix(fi.Name(), "UniversalProtocolHandler.") {
+			continue
+		}
+		assigns := func(nd ast.Node, field string, deep bool) bool {
+			found := false
+			visit := func(m ast.Node) bool {
+				for _, t := range fw.WriteTargets(info, m) {
+					if fw.IsFieldSel(info, t, "subscription", "UniversalProtocolHandler", field) {
+						found = true
+					}
+				}
+				return true
+			}
+			if deep {
+				fw.WalkAll(nd, visit)
+			} else {
+				visit(nd)
+			}
+			return found
+		}
+		fw.WalkAll(fi.Decl.Body, func(nd ast.Node) bool {
+			blk, ok := nd.(*ast.BlockStmt)
+			if !ok {
+				return true
+			}
+			for i, f := range pair {
+				direct := false
+				for _, st := range blk.List {
+					if assigns(st, f, false) {
+						direct = true
+					}
+				}
+				if !direct {
+					continue
+				}
+				n++
+				other := pair[1-i]
+				r.Check(assigns(blk, other, true), "C19-R5", fi.Name()+"/timeout-state-pair:"+f+"#"+itoa(n), p.Pos(blk.Pos()), "the block that assigns "+f+" also assigns "+other,
+					"one half of the read time-out state is updated without the other: after the timer is stopped the running flag stays set (or the cancel function stays behind), so the time-out never starts again — a connection whose reads keep failing is polled for ever, its subscriptions are never terminated and the socket is never closed")
+			}
+			return true
+		})
+	}
+	r.Expect("C19-R5", "assignments of the read time-out state", n, 4)
 }
